@@ -9,26 +9,28 @@ SYSTEMS = {1: "NPM", 2: "Maven", 3: "PyPI"}   # values of the API's System enum;
 def histories(h, tier):
     # each step: (package, version, deleted, number of requirements)
     if tier == "quick":
-        steps = [(0, 0, 0, 1), (0, 1, 0, 0), (1, 0, 1, 0), (0, 2, 0, 2)]
+        steps = [(0, 0, 0, 1), (0, 1, 0, 0), (1, 0, 1, 0), (0, 2, 0, 2), (0, 0, 0, 2), (0, 4, 0, 0)]
     else:
-        steps = [(p, v, d, n) for p in (0, 1) for v in (0, 1, 2, 3) for d in (0, 1) for n in (0, 1, 2)]
+        steps = [(p, v, d, n) for p in (0, 1) for v in (0, 1, 2, 3, 4) for d in (0, 1) for n in (0, 1, 2)]
     return itertools.product(steps, repeat=h)
 
 
 def run(tier):
     jobs = []
     base = dict(unwind=80, timeout_s=900, summarise=SUM, max_witnesses=1, witness_every=500, panic_is_violation=True)
-    hs = [1, 2] if tier == "quick" else [1, 2, 3]
+    hs = [1, 2, 3] if tier == "quick" else [1, 2, 3, 4]
     for sys in SYSTEMS:
         for h in hs:
             hist = list(histories(h, tier))
             if tier != "quick" and h == 3:
-                hist = hist[::97]  # a spread sample of the 48^3 three-step histories; all one- and two-step ones are complete
+                hist = hist[::97]  # a spread sample of the 60^3 three-step histories; all one- and two-step ones are complete
+            if tier != "quick" and h == 4:
+                hist = hist[::19997]
             for hh in hist:
                 p = {"sys": sys, "h": h}
                 for i, (pp, v, d, n) in enumerate(hh):
                     p.update({"s%dp" % i: pp, "s%dv" % i: v, "s%dd" % i: d, "s%dn" % i: n})
                 jobs.append(dict(base, harness="VerifC14History", params=p))
-    return run_property("C14", tier, [Group("resolve", jobs)], required_covers=["added version looked up"],
-                        assumptions=["keys of each AddVersion call are concrete job parameters; attribute flags, tag text and requirement types are symbolic"],
-                        bounds={"history_len": max(hs), "packages": 3, "versions": 4})
+    return run_property("C14", tier, [Group("resolve", jobs)], required_covers=["added version looked up", "latest-tagged version among several"],
+                        assumptions=["keys of each AddVersion call are concrete job parameters (versions 1.0.0, 1.1.0, 2.0.0-a, 0.9.0 and the unparsable foo); the blocked flag, the tag (none, latest, other) and requirement types are symbolic", "npm listings in which several versions carry the latest tag, or a latest-tagged prerelease meets only unparsable versions, are not judged for order"],
+                        bounds={"history_len": max(hs), "packages": 3, "versions": 5})
